@@ -128,9 +128,10 @@ def build_case(ctx, rng, two_d, name, entry, n, want_weights, mi_choice, kw_over
         x, y = M.make_data(rng, n)
         shape = (n,)
     if want_weights:
-        if 'weights' in params:
+        # every non-empty subset of the per-point arguments is a separate case (alpha alone, weights alone, both)
+        if 'weights' in params and want_weights in (True, 'weights'):
             pp['weights'] = np.round(rng.uniform(0.1, 1.0, shape) * 64) / 64
-        if 'alpha' in params and 'aspls' in name:
+        if 'alpha' in params and 'aspls' in name and want_weights in (True, 'alpha'):
             pp['alpha'] = np.round(rng.uniform(0.3, 1.0, shape) * 64) / 64
     return kw, pp, ((x, z) if two_d else (x,)), y, shape
 
@@ -247,6 +248,25 @@ def run_case(ctx, rng, two_d, name, entry, n, pkind, axes, want_weights, mi_choi
                                     f'max_iter={mi_choice}, perm={pkind} axes={list(axes)}): {label} of the permuted call '
                                     f'differs from the permuted {label} of the sorted call by {err:.3g}',
                                     dict(replay, label=label, max_abs_diff=err), property_level=True))
+    # rounding amplified by an ill-conditioned problem (e.g. lam = 1e7 on a tiny grid) is not an ordering defect: when the
+    # permuted and the sorted call differ only slightly, measure how much the sorted call moves under a relative perturbation
+    # of 1e-14 of the data; differences within 1000x that change are attributed to the conditioning (counted, not reported)
+    soft = [d for d in out if d.stage in ('c02.equivariance', 'c02.scalars') and d.property_level]
+    if soft and np.all(np.isfinite(np.asarray(bs, dtype=float))):
+        try:
+            sgn = np.where(np.random.default_rng(7).random(np.shape(ys)) < 0.5, -1.0, 1.0)
+            rs2 = call(two_d, name, xs, np.asarray(ys, dtype=float) * (1 + 1e-14 * sgn), kw_s, iface=iface, module=entry['module'])
+            if rs2[0] == 'ok':
+                d_pert = float(np.max(np.abs(np.asarray(rs2[1], dtype=float) - np.asarray(bs, dtype=float))))
+                d_obs = float(np.max(np.abs(np.asarray(bu, dtype=float) - permute(np.asarray(bs, dtype=float)))))
+                th_ok = True
+                if 'tol_history' in ps and 'tol_history' in pu:
+                    th_ok = len(np.atleast_1d(ps['tol_history'])) == len(np.atleast_1d(pu['tol_history']))
+                if th_ok and d_obs <= 1000 * d_pert:
+                    ctx.count('ill-conditioned-case')
+                    out = [d for d in out if d not in soft]
+        except Exception:      # noqa: BLE001
+            pass
     return out
 
 
@@ -258,7 +278,7 @@ def cases(ctx):
     reps = 3 if ctx.thorough else 1
     for rep in range(reps):
         for name, e in reg1.items():
-            for ww in (False, True):
+            for ww in ((False, True, 'alpha', 'weights') if ('alpha' in e['params'] and 'aspls' in name) else (False, True)):
                 if ww and not ({'weights', 'alpha'} & set(e['params'])):
                     continue
                 mi_opts = [None, 0, 1, 2] if 'max_iter' in e['params'] else [None]
@@ -272,7 +292,7 @@ def cases(ctx):
                         pk = kinds[int(rng.integers(0, len(kinds)))] if iface == 'class' else ['random', 'rotate'][int(rng.integers(0, 2))]
                         plan.append((False, name, e, n, pk, (0,), ww, mi, iface))
         for name, e in reg2.items():
-            for ww in (False, True):
+            for ww in ((False, True, 'alpha', 'weights') if ('alpha' in e['params'] and 'aspls' in name) else (False, True)):
                 if ww and not ({'weights', 'alpha'} & set(e['params'])):
                     continue
                 axes_opts = [(0,), (1,), (0, 1)]
